@@ -242,7 +242,7 @@ def draw_size(d, long_ok=True):
         return d.pick(LONG_SIZES)
     if d.pct(75):
         return d.int(0, 12)
-    return d.pick(STR_SIZES)
+    return d.pick(d.cfg.get('str_sizes', STR_SIZES))
 
 
 def draw_text(d, alphabet, n):
